@@ -177,6 +177,8 @@ def expand(case):
         out.append((f'={ref}+0', v or 0, 'arith'))
         out.append((f'=COLUMN({ref})', c, 'COLUMN'))
         out.append((f'=IF({ref}>0,{ref},-1)', v if v else -1, 'IF'))
+        # a single cell as the sum range of SUMIF: the top-left anchor of a range shaped like the criteria range
+        out.append((f'=SUMIF($A$1:$A$2,">0",{ref})', (v or 0) + (planted(s, c, r + 1) or 0), 'SUMIF-anchor'))
         return out
     if case['kind'] == 'area':
         c1, r1, c2, r2 = case['a']
